@@ -33,3 +33,103 @@ Proof.
       apply dec_raw_grid_bytes; [apply (wf_crop W H); assumption|apply grid_pix_ok_crop; assumption].
     + apply wire_bytes_ok. unfold pay_ok. cbn [w_payload]. apply grid_bytes_ok.
 Qed.
+
+(* ------------------------------------------------------------------ the repaired dispatch as baseline *)
+From LV Require Import Enc.Subrect Enc.SubrectProofs Enc.RRE Enc.Raw Enc.Zlib Enc.SplitProofs Enc.TotalProofs Enc.ZRLETotal Enc.ZRLEProofs1 Enc.SendAll.
+
+Lemma res_concat_no_err {A B} (f : A -> res (list B)) : forall l,
+  (forall a, In a l -> f a <> Err) -> res_concat (map f l) <> Err.
+Proof.
+  induction l as [|a t IH]; intros H; cbn [map res_concat]; [discriminate|].
+  pose proof (H a (or_introl eq_refl)) as Ha. pose proof (IH (fun b Hb => H b (or_intror Hb))) as Ht.
+  destruct (f a); destruct (res_concat (map f t)); congruence.
+Qed.
+
+Section NoErr.
+  Variables (W H bypp : nat) (scr : grid).
+  Hypothesis WF : wf_grid W H scr.
+  Hypothesis BY : 1 <= bypp.
+
+  Lemma send_raw_no_err x y w h : x + w <= W -> y + h <= H -> send_raw bypp x y w h scr <> Err.
+  Proof.
+    intros HX HY. unfold send_raw. destruct ((w =? 0) || (h =? 0)) eqn:Z; [discriminate|].
+    apply orb_false_iff in Z. destruct Z as [Z1 Z2]. apply Nat.eqb_neq in Z1, Z2.
+    pose proof (wf_crop W H scr x y w h WF HX HY) as WC.
+    destruct (le_lt_dec (bypp * w) bufsize) as [FIT|WIDE].
+    - destruct (raw_send_ok bufsize bypp (rect_header x y w h c_encRaw) (crop scr x y w h) w h) as (chunks & ->); auto; try lia.
+      discriminate.
+    - rewrite (raw_send_too_wide bufsize bypp _ _ w h WC ltac:(lia) WIDE). discriminate.
+  Qed.
+
+  Lemma send_rre_no_err fsz enc x y w h : x + w <= W -> y + h <= H -> 1 <= w -> 1 <= h ->
+    send_rre fsz enc bypp x y w h scr <> Err.
+  Proof.
+    intros HX HY Hw Hh. unfold send_rre.
+    pose proof (wf_crop W H scr x y w h WF HX HY) as WC.
+    destruct (rre_payload fsz bypp w h (crop scr x y w h)) as [p| |] eqn:RP; [discriminate|apply send_raw_no_err; assumption|].
+    exfalso. unfold rre_payload in RP.
+    destruct (bg_colour bypp (concat (crop scr x y w h))) as [bg|] eqn:BG.
+    - destruct (subrect_encode w h _ bg _ _ _) as [s| |] eqn:SE; try discriminate.
+      revert SE. apply subrect_encode_no_err. exact WC.
+    - unfold bg_colour in BG. destruct bypp as [|[|b]]; try discriminate; try lia.
+      destruct WC as [L F]. destruct (crop scr x y w h) as [|r0 g']; [simpl in L; lia|].
+      apply Forall_cons_iff in F. destruct F as [F0 _]. destruct r0; [simpl in F0; lia|]. simpl in BG. discriminate.
+  Qed.
+End NoErr.
+
+Lemma send_rect_no_err W H scr p x y w h :
+  wf_grid W H scr -> x + w <= W -> y + h <= H -> 1 <= w -> 1 <= h -> 1 <= p_bypp p -> 1 <= p_mw p -> 1 <= p_mh p ->
+  In (p_enc p) [c_encRaw; (-1)%Z; c_encRRE; c_encCoRRE; c_encHextile; c_encZlib; c_encUltra; c_encZRLE] ->
+  send_rect p x y w h scr <> Err.
+Proof.
+  intros WF HX HY Hw Hh BY MW MH IN. unfold send_rect. cbv zeta.
+  destruct ((p_enc p =? c_encRaw) || (p_enc p =? -1))%Z eqn:B0; [eapply send_raw_no_err; eauto|].
+  destruct (p_enc p =? c_encRRE)%Z eqn:B2; [eapply send_rre_no_err; eauto|].
+  destruct (p_enc p =? c_encCoRRE)%Z eqn:B4.
+  { unfold send_corre. apply res_concat_no_err. intros [[[tx ty] tw] th] INT. apply tiles_inside in INT.
+    destruct INT as (I1 & I2 & I3 & I4 & I5 & I6). eapply send_rre_no_err; eauto; lia. }
+  destruct (p_enc p =? c_encHextile)%Z eqn:B5.
+  { destruct (send_hextile_total W H (p_bypp p) scr WF x y w h HX HY) as (r & ->). discriminate. }
+  destruct (p_enc p =? c_encZlib)%Z eqn:B6.
+  { unfold send_zlib. apply res_concat_no_err. intros [sy sh] INS. rewrite strips_eq in INS by assumption.
+    apply in_map_iff in INS. destruct INS as (s & EQ & IS). inversion EQ; subst sy sh. clear EQ.
+    apply starts_spec in IS. destruct IS as (IS & _).
+    destruct (Z.of_nat _ <? c_ZLIB_MIN_COMP)%Z; [|discriminate]. eapply send_raw_no_err; eauto; lia. }
+  destruct (p_enc p =? c_encUltra)%Z eqn:B9; [unfold send_ultra; discriminate|].
+  destruct (p_enc p =? c_encZRLE)%Z eqn:B16.
+  { destruct (send_zrle_total W H scr (p_bypp p) (p_cmode p) (p_b15 p) x y w h WF HX HY) as (r & ->). discriminate. }
+  exfalso. apply orb_false_iff in B0. destruct B0 as [B0 B1].
+  apply Z.eqb_neq in B0, B1, B2, B4, B5, B6, B9, B16. simpl in IN. intuition congruence.
+Qed.
+
+(* C01_send_rect_repaired: the dispatch of the repaired server (a3e0ace) - for EVERY well-formed request, however
+   wide, rectangles are sent, each decodes to the framebuffer, they lie inside the request and partition it *)
+Theorem send_rect_split_full W H scr p x y w h :
+  wf_grid W H scr -> grid_pix_ok (p_bypp p) scr -> 1 <= p_bypp p ->
+  x + w <= W -> y + h <= H -> 1 <= w -> 1 <= h -> (Z.of_nat w < 65536)%Z -> (Z.of_nat h < 65536)%Z ->
+  1 <= p_mw p <= 255 -> 1 <= p_mh p <= 255 ->
+  (p_enc p = c_encZRLE -> p_b15 p = false /\ Forall (Forall (cpix_ok (p_bypp p) (p_cmode p))) scr) ->
+  In (p_enc p) [c_encRaw; (-1)%Z; c_encRRE; c_encCoRRE; c_encHextile; c_encZlib; c_encUltra; c_encZRLE] ->
+  exists rects, send_rect_split p x y w h scr = Ok rects /\
+    Forall (UpdateProofs.rect_ok (p_bypp p) (p_cmode p) scr) rects /\
+    Forall (fun r => x <= w_x r /\ y <= w_y r) rects /\
+    partitions w h (rel_geoms x y rects) /\
+    Forall (fun r => bytes_ok (wire_bytes r)) rects.
+Proof.
+  intros WF PIX BY HX HY HW HH BW BH MW MH ZR IN.
+  pose proof (send_rect_no_err W H scr p x y w h WF HX HY HW HH BY ltac:(lia) ltac:(lia) IN) as NE.
+  destruct (send_rect_split_ok W H scr p x y w h WF PIX HX HY) as (_ & SAME & WIDE).
+  destruct (send_rect p x y w h scr) as [rects| |] eqn:SR; [| |congruence].
+  - exists rects. split; [apply SAME; reflexivity|].
+    destruct (send_rect_ok W H scr p x y w h rects WF PIX HX HY HW HH BW BH MW MH ZR SR) as (A & B & C).
+    split; [exact A|]. split; [exact B|]. split; [exact C|].
+    apply (SendAll.send_rect_bytes_all W H scr p x y w h rects WF HX HY SR).
+  - destruct (WIDE eq_refl) as (r & E & OK & G & BYT). exists [r]. split; [exact E|].
+    unfold geom in G. injection G as Gx Gy Gw Gh.
+    split; [constructor; [exact OK|constructor]|]. split; [constructor; [lia|constructor]|].
+    split; [|constructor; [exact BYT|constructor]].
+    unfold rel_geoms. cbn [map]. rewrite Gx, Gy, Gw, Gh. rewrite !Nat.sub_diag. split; [|split].
+    + intros a b c d [Q|[]]. inversion Q; subst. lia.
+    + intros i j Hi Hj. exists (0, 0, w, h). split; [left; reflexivity|]. simpl. lia.
+    + intros a b i j [<-|[]] [<-|[]] _ _. reflexivity.
+Qed.
